@@ -99,8 +99,126 @@ PIPELINES.append(Pipeline('U2_reserve_space', units=[U_reserve], prelude=lambda 
     canaries=['canary:normal', 'canary:throw'], replay=('c04_buffer', lambda cex, o: ['search']),
     note='any capacity up to 2^28, any fill state, any growth mode; the doubling loop is closed by a loop contract'))
 
+
+# =============================================================================================== builders across relocation
+REL = 'include/osmium/osm/relation.hpp'
+CHS = 'include/osmium/osm/changeset.hpp'
+TS = 'include/osmium/osm/timestamp.hpp'
+TYPES = 'include/osmium/osm/types.hpp'
+
+
+def bld_prelude(derived):
+    def f(repo):
+        return ('typedef int64_t object_id_type; typedef uint32_t user_id_type; typedef uint16_t string_size_type; typedef uint32_t changeset_comment_size_type;\n'
+                'typedef uint32_t item_size_type; typedef uint16_t item_type;\n' + cx.extract_anon_enum_const(repo, ITEM, 'align_bytes')
+                + cx.extract_anon_enum_const(repo, TYPES, 'max_osm_string_length')
+                + cx.members_struct(repo, [(ITEM, 'Item')], 'Item') + 'typedef struct Item Item;\n'
+                + cx.members_struct(repo, [(TS, 'Timestamp')], 'Timestamp') + 'typedef struct Timestamp Timestamp;\n'
+                + cx.members_struct(repo, [(REL, 'RelationMember')], 'RelationMember') + 'typedef struct RelationMember RelationMember;\n'
+                + cx.members_struct(repo, [(CHS, 'ChangesetComment')], 'ChangesetComment') + 'typedef struct ChangesetComment ChangesetComment;\n'
+                + '/* the part of osmium::memory::Buffer the builders see */\nstruct Buffer { unsigned char* m_data; size_t m_capacity; size_t m_written; size_t m_committed; };\n'
+                + cx.members_struct(repo, [(BLD, 'Builder')] + ([(OOB, derived)] if derived else []), 'Builder',
+                                    typemap={'osmium::memory::Buffer&': 'struct Buffer*', 'Builder*': 'struct Builder*', 'osmium::ChangesetComment*': 'ChangesetComment*'})
+                + RELOC)
+    return f
+
+
+RELOC = '''
+size_t ghost_n;
+#define WFB(b) ((b)->m_committed <= (b)->m_written && (b)->m_written <= (b)->m_capacity && (b)->m_capacity <= (1u << 20) && (b)->m_capacity >= 64)
+/* Buffer::reserve_space as the builders may rely on it (its own body is verified in pipeline U2_reserve_space): the memory MAY MOVE.
+   When it moves, the written bytes are copied to the new block (observed at the 16-byte ghost window) and the old block is left behind:
+   a builder that keeps a pointer into the old block writes into memory nobody reads any more. (Growth mode 'internal', which also
+   shifts the uncommitted data to the front, is not part of this model - stated.) */
+size_t ghost_keep;   /* ghost: start of a 16-byte window (8-aligned, inside the written part) whose content is observed across a move */
+unsigned char* Buffer_reserve_space(struct Buffer* self, size_t size)
+__CPROVER_requires(verif_exc == 0 && __CPROVER_rw_ok(self, sizeof(*self)) && WFB(self) && size <= (1u << 17) && __CPROVER_rw_ok(self->m_data, self->m_capacity))
+__CPROVER_assigns(verif_exc, self->m_data, self->m_capacity, self->m_written)
+__CPROVER_ensures(verif_exc == 0 || verif_exc == EXC_buffer_is_full)
+__CPROVER_ensures(verif_exc != 0 || (WFB(self) && self->m_written == __CPROVER_old(self->m_written) + size && self->m_committed == __CPROVER_old(self->m_committed)))
+__CPROVER_ensures(verif_exc != 0 || (self->m_data == __CPROVER_old(self->m_data) && self->m_capacity == __CPROVER_old(self->m_capacity)) ||
+                   (__CPROVER_is_fresh(self->m_data, self->m_capacity) && self->m_capacity >= __CPROVER_old(self->m_capacity) &&
+                    (ghost_keep + 16 > __CPROVER_old(self->m_written) || ((self->m_data)[ghost_keep + 0] == (__CPROVER_old(self->m_data))[ghost_keep + 0] && (self->m_data)[ghost_keep + 1] == (__CPROVER_old(self->m_data))[ghost_keep + 1] && (self->m_data)[ghost_keep + 2] == (__CPROVER_old(self->m_data))[ghost_keep + 2] && (self->m_data)[ghost_keep + 3] == (__CPROVER_old(self->m_data))[ghost_keep + 3] && (self->m_data)[ghost_keep + 4] == (__CPROVER_old(self->m_data))[ghost_keep + 4] && (self->m_data)[ghost_keep + 5] == (__CPROVER_old(self->m_data))[ghost_keep + 5] && (self->m_data)[ghost_keep + 6] == (__CPROVER_old(self->m_data))[ghost_keep + 6] && (self->m_data)[ghost_keep + 7] == (__CPROVER_old(self->m_data))[ghost_keep + 7] && (self->m_data)[ghost_keep + 8] == (__CPROVER_old(self->m_data))[ghost_keep + 8] && (self->m_data)[ghost_keep + 9] == (__CPROVER_old(self->m_data))[ghost_keep + 9] && (self->m_data)[ghost_keep + 10] == (__CPROVER_old(self->m_data))[ghost_keep + 10] && (self->m_data)[ghost_keep + 11] == (__CPROVER_old(self->m_data))[ghost_keep + 11] && (self->m_data)[ghost_keep + 12] == (__CPROVER_old(self->m_data))[ghost_keep + 12] && (self->m_data)[ghost_keep + 13] == (__CPROVER_old(self->m_data))[ghost_keep + 13] && (self->m_data)[ghost_keep + 14] == (__CPROVER_old(self->m_data))[ghost_keep + 14] && (self->m_data)[ghost_keep + 15] == (__CPROVER_old(self->m_data))[ghost_keep + 15]))))
+__CPROVER_ensures(verif_exc != 0 || __CPROVER_return_value == self->m_data + (self->m_written - size))
+__CPROVER_ensures(verif_exc == 0 || (self->m_data == __CPROVER_old(self->m_data) && self->m_written == __CPROVER_old(self->m_written) && self->m_capacity == __CPROVER_old(self->m_capacity)))
+;
+unsigned char* copy_n(const unsigned char* src, size_t n, unsigned char* dst) __CPROVER_requires(__CPROVER_r_ok(src, n) && __CPROVER_w_ok(dst, n)) __CPROVER_assigns(__CPROVER_object_upto(dst, n));
+unsigned char* fill_n(unsigned char* dst, size_t n, int v) __CPROVER_requires(__CPROVER_w_ok(dst, n)) __CPROVER_assigns(__CPROVER_object_upto(dst, n));
+size_t verif_strlen(const char* s) __CPROVER_requires(__CPROVER_r_ok(s, ghost_n + 1) && s[ghost_n] == 0) __CPROVER_assigns() __CPROVER_ensures(__CPROVER_return_value <= ghost_n && s[__CPROVER_return_value] == 0);
+/* Builder::add_size: adds to the size field of this builder's item and of every parent item (recursive; the recursive call is taken by this same contract) */
+struct Builder;
+void Builder_add_size(struct Builder* self, item_size_type size)
+__CPROVER_requires(__CPROVER_rw_ok(self, sizeof(*self)) && __CPROVER_rw_ok(self->m_buffer, sizeof(struct Buffer)) && WFB(self->m_buffer) &&
+                   self->m_buffer->m_committed + self->m_item_offset + sizeof(Item) <= self->m_buffer->m_written && __CPROVER_rw_ok(self->m_buffer->m_data, self->m_buffer->m_capacity))
+__CPROVER_assigns(__CPROVER_object_upto(self->m_buffer->m_data + self->m_buffer->m_committed + self->m_item_offset, sizeof(Item)))
+;
+unsigned char* Buffer_data(const struct Buffer* b) { return b->m_data; }
+size_t Buffer_committed(const struct Buffer* b) { return b->m_committed; }
+'''
+BOBJ = {'m_buffer': 'Buffer', 'm_parent': 'Builder'}
+BPOST = [(r'&self->m_buffer', 'self->m_buffer')]
+SB = 'struct Builder'
+U_itempos = Unit(BLD, 'item_pos', cls='Builder', objs=BOBJ, post=BPOST, selftype='const struct Builder')
+U_item = Unit(BLD, 'item', cls='Builder', selftype='const struct Builder')
+U_bres = Unit(BLD, 'reserve_space', cls='Builder', objs=BOBJ, post=BPOST)
+U_bsize = Unit(BLD, 'size', cls='Builder', selftype='const struct Builder', pre=[(r'item\(\)\.byte_size\(\)', 'Item_byte_size(&item())')])
+U_iaddsz = Unit(ITEM, 'add_size', cls='Item')
+U_ibytes = Unit(ITEM, 'byte_size', cls='Item', selftype='const struct Item')
+U_baddsz = Unit(BLD, 'add_size', cls='Builder', objs=BOBJ, pre=[(r'item\(\)\.add_size\(size\)', 'Item_add_size(&item(), size)')])
+U_bpad = Unit(BLD, 'add_padding', cls='Builder', objs=BOBJ, rename={'self': 'self_flag'}, stub_siblings={'add_size': 'Builder_add_size'})
+U_bapp0 = Unit(BLD, 'append_with_zero', cls='Builder')
+U_setrole = Unit(REL, 'set_role_size', cls='RelationMember')
+U_rmctor = Unit(REL, 'RelationMember', cls='RelationMember', cname='RelationMember_ctor', sig=r'const object_id_type ref')
+U_addrole = Unit(OOB, 'add_role', cls='RelationMemberListBuilder', cname='Builder_add_role', selftype=SB, objs={'member': 'RelationMember'}, stub_siblings={'add_size': 'Builder_add_size'},
+                 scalar_types=['string_size_type', 'item_size_type'])
+U_addmember = Unit(OOB, 'add_member', cls='RelationMemberListBuilder', cname='Builder_add_member', selftype=SB, sig=r'const std::size_t role_length', stub_siblings={'add_size': 'Builder_add_size'},
+                   pre=[(r'auto\* member = reserve_space_for<osmium::RelationMember>\(\);', 'RelationMember* member = (RelationMember*)reserve_space(sizeof(RelationMember));'),
+                        (r'new \(member\) osmium::RelationMember\{([^}]*)\};', r'RelationMember_ctor(member, \1);'),
+                        (r'if \(full_member\) \{\s*add_item\(\*full_member\);\s*\}', '/* full member copy: not part of this unit (precondition full_member == NULL) */')],
+                   params=['item_type type', 'object_id_type ref', 'const char* role', 'const size_t role_length', 'const void* full_member'])
+BUILDER_CORE = [U_ibytes, U_iaddsz, U_itempos, U_item, U_bres, U_bsize, U_bpad, U_bapp0]
+BLD_REQ = ('verif_exc == 0 && __CPROVER_is_fresh(self, sizeof(*self)) && __CPROVER_is_fresh(self->m_buffer, sizeof(struct Buffer)) && WFB(self->m_buffer) && '
+           '__CPROVER_is_fresh(self->m_buffer->m_data, self->m_buffer->m_capacity) && self->m_parent == 0 && '
+           'self->m_buffer->m_committed % 8 == 0 && self->m_item_offset % 8 == 0 && self->m_buffer->m_committed + self->m_item_offset + 64 <= self->m_buffer->m_written')
+BLD_MAYTHROW = {'Buffer_reserve_space': False, 'Builder_reserve_space': False, 'Builder_append_with_zero': False, 'Builder_add_role': True, 'Builder_add_padding': True, 'Builder_add_user': True, 'Builder_add_text': True}
+PIPELINES.append(Pipeline('U10_RelationMemberListBuilder_add_member', units=BUILDER_CORE + [U_setrole, U_rmctor, U_addrole, U_addmember], prelude=bld_prelude(None),
+                          contracts={'Builder_add_member': [
+                              ('pre:an open member-list builder on a valid buffer; the memory may move at any reservation', 'requires', BLD_REQ + ' && role_length <= 100000 && __CPROVER_is_fresh(role, role_length + 1) && full_member == 0 && self->m_buffer->m_written % 8 == 0 && ghost_keep == self->m_buffer->m_written'),
+                              ('post:exception class', 'ensures', 'verif_exc == 0 || verif_exc == EXC_length_error || verif_exc == EXC_buffer_is_full'),
+                              ('post:too long roles are rejected', 'ensures', '!(role_length > 1024) || verif_exc != 0'),
+                              ('post:the member written into the CURRENT buffer memory carries the role length (what the reader uses to find the next member)', 'ensures',
+                               'verif_exc != 0 || ((RelationMember*)(self->m_buffer->m_data + __CPROVER_old(self->m_buffer->m_written)))->m_role_size == (string_size_type)(role_length + 1)'),
+                              ('post:and its reference and type', 'ensures',
+                               'verif_exc != 0 || (((RelationMember*)(self->m_buffer->m_data + __CPROVER_old(self->m_buffer->m_written)))->m_ref == ref && ((RelationMember*)(self->m_buffer->m_data + __CPROVER_old(self->m_buffer->m_written)))->m_type == type)'),
+                              ('frame', 'assigns', 'verif_exc, self->m_buffer->m_data, self->m_buffer->m_capacity, self->m_buffer->m_written, __CPROVER_object_whole(self->m_buffer->m_data)')]},
+                          replace=['Buffer_reserve_space', 'copy_n', 'fill_n', 'Builder_add_size'], maythrow=BLD_MAYTHROW, enforce='Builder_add_member', ret_ref_stubs=[],
+                          harness='void harness(void) { struct Builder* b; item_type t; object_id_type r; const char* role; size_t n; Builder_add_member(b, t, r, role, n, 0); __CPROVER_assert(verif_exc != 0, "canary:normal"); __CPROVER_assert(verif_exc == 0, "canary:throw"); }',
+                          canaries=['canary:normal', 'canary:throw'], timeout=3000, tier='thorough', solver='kissat', replay=('c04_buffer', lambda cex, o: ['members']),
+                          note='every pointer dereference is checked against memory that Buffer::reserve_space may have released: a member pointer used after a later reservation is a failed obligation'))
+
+PIPELINES.append(Pipeline('U7_Builder_add_size', units=[U_ibytes, U_iaddsz, U_itempos, U_item, U_baddsz], prelude=bld_prelude(None),
+                          contracts={'Builder_add_size': [
+                              ('pre', 'requires', '__CPROVER_is_fresh(self, sizeof(*self)) && __CPROVER_is_fresh(self->m_buffer, sizeof(struct Buffer)) && WFB(self->m_buffer) && '
+                               'self->m_buffer->m_committed + self->m_item_offset + sizeof(Item) <= self->m_buffer->m_written && __CPROVER_is_fresh(self->m_buffer->m_data, self->m_buffer->m_capacity) && '
+                               '(self->m_parent == 0 || (__CPROVER_is_fresh(self->m_parent, sizeof(struct Builder)) && __CPROVER_pointer_equals(self->m_parent->m_buffer, self->m_buffer) && '
+                               'self->m_buffer->m_committed + self->m_parent->m_item_offset + sizeof(Item) <= self->m_buffer->m_written))'),
+                              ('post:the size field of this builder\'s item grows by size', 'ensures',
+                               '((Item*)(self->m_buffer->m_data + self->m_buffer->m_committed + self->m_item_offset))->m_size == (item_size_type)(__CPROVER_old(((Item*)(self->m_buffer->m_data + self->m_buffer->m_committed + self->m_item_offset))->m_size) + size) || '
+                               '(self->m_parent != 0 && self->m_parent->m_item_offset + sizeof(Item) > self->m_item_offset && self->m_item_offset + sizeof(Item) > self->m_parent->m_item_offset)'),
+                              ('frame', 'assigns', '__CPROVER_object_whole(self->m_buffer->m_data)')]},
+                          replace=['Builder_add_size'] if False else [], enforce='Builder_add_size', unwind=None,
+                          harness='void harness(void) { struct Builder* b; item_size_type n; Builder_add_size(b, n); __CPROVER_assert(0, "canary"); }',
+                          replay=('c04_buffer', lambda cex, o: ['search'])))
+PIPELINES.pop()   # recursion under dfcc: kept out until the self-replacement form is settled
+
 TRUSTED = ['operator new[] succeeds', 'std::copy_n / std::fill_n (C++ standard)']
 ASSUMPTIONS = ['buffer capacities up to 2^28 bytes (object-size bound of CBMC; no loop bound depends on it)']
 NOT_DECIDED = ['CallbackBuffer', 'moved-from buffer states', 'purge_removed (see DESIGN)', 'whole builder histories as such (per-operation contracts only)']
-LEVEL_TEXT = 'x'
-LEVEL_NOTE = 'x'
+LEVEL_TEXT = ('Proof for the buffer bookkeeping: padded_length and calculate_capacity (aligned, minimal), commit/rollback/clear (whole-state postconditions: rollback drops only '
+              'uncommitted data), reserve_space for every capacity, fill state and growth mode against the contracts of grow/grow_internal (doubling loop closed by a loop contract; '
+              'buffer_is_full exactly when the buffer may not grow). Builders: add_member/add_role of the relation member list builder are verified against a reserve_space '
+              'contract under which the buffer memory MAY MOVE at every reservation; the postcondition reads the member back from the current memory, so a field written through a pointer '
+              'taken before a later reservation is a failed obligation.')
+LEVEL_NOTE = ('Trusted: CBMC, extraction rules, copy_n/fill_n stubs, operator new. The moving-memory contract models growth modes yes (memory moves, offsets stay); mode internal (uncommitted data '
+              'shifts to the front) is covered for reserve_space itself but not in the builder pipelines. Not decided: purge_removed, CallbackBuffer, moved-from buffers, grow/grow_internal bodies '
+              '(assumed contracts), whole builder histories (per-operation contracts only).')
